@@ -72,6 +72,23 @@ def work(ident, prop, tier, tree):
                     k = kk
         repo = Repo(tree)
         timeout = 20000 if tier == "quick" else 60000
+        if getattr(k, "bounded_only", False):
+            # declared outside the verifier's reach: a native bounded search stands in, labelled bounded, never counted as proved
+            bd = dict(k.bounded_driver)
+            bd["inputs"] = dict(bd.get("inputs", {}), seed=int(os.environ.get("VERIF_SEED", "0") or 0) + 11,
+                                trials=bd.get("inputs", {}).get("trials_thorough" if tier == "thorough" else "trials", 300))
+            rp = run_replay(bd, tree, timeout=1500)
+            fi = repo.function(k.qualname)
+            fails = rp.get("failures")
+            if fails is None:
+                fails = [{"claim": "property", "detail": rp.get("detail", "")}] if rp.get("reproduced") else []
+            err = None if rp.get("reproduced") is not None else "crash: bounded driver failed: " + str(rp.get("detail"))[:600]
+            return {"ident": ident, "error": err, "paths": 0, "aux_paths": 0, "infeasible": 0, "loops": {}, "seconds": round(time.time() - t0, 3),
+                    "obligations": [], "canaries": [], "assumptions": list(k.assumptions), "bounded_reason": k.bounded_reason,
+                    "functions": [{"qualname": fi.qualname, "file": os.path.relpath(fi.path, tree), "lines": list(fi.lines), "sha256": fi.sha256, "bounded": True}],
+                    "bounded": {"instances": bd["inputs"]["trials"], "undecided": 0, "detail": rp.get("detail", "")[:300],
+                                "bound": f"native driver {bd['driver']}: {bd['inputs']['trials']} seeded random crafted instances ({k.bounded_bound})",
+                                "violations": [{"kwargs": bd, "detail": f["detail"], "claim": f["claim"]} for f in fails]}}
         res = K.verify(k, repo)
         bounded = None
         if res.error and res.error.startswith("unsupported") and getattr(k, "bounded_driver", None):
@@ -302,22 +319,29 @@ def main(argv=None):
         viol_lines.append(f"VIOLATION property={prop} replay={path}{tail}")
         lines.append(f"  failed obligation {o['id']} (path {o['path'] or '-'}): {rep.get('detail', '')[:300]}")
     # bounded stand-ins of contracts whose function is outside the verifier's reach
+    known_bounded = []
     for r in results:
         b = r.get("bounded")
-        if b and b["violations"]:
+        for v in (b["violations"] if b else []):
+            oid = r["ident"] + "/bounded-stand-in" + (":" + v["claim"] if v.get("claim") else "")
+            m = [f for f in open_f if f["obligation"] == oid]
+            if m:
+                known_bounded.append(oid)
+                lines.append(f"KNOWN-FINDING: property={prop} {m[0]['what']} [{oid}]")
+                continue
             n_viol += 1
-            v = b["violations"][0]
-            h = hashlib.sha1((r["ident"] + "bounded").encode()).hexdigest()[:10]
+            h = hashlib.sha1(oid.encode()).hexdigest()[:10]
             path = os.path.join("replays", f"{prop}_{h}.json")
-            json.dump({"property": prop, "obligation": r["ident"] + "/bounded-stand-in", "tree": tree,
-                       "solver": {"status": "not applicable: " + r["error"]},
+            reason = r["error"] or r.get("bounded_reason", "")
+            json.dump({"property": prop, "obligation": oid, "tree": tree,
+                       "solver": {"status": "not applicable: " + reason},
                        "witness": (v["kwargs"] if "driver" in v["kwargs"] else
                                    {"driver": "generic", "qualname": r["ident"].split("[")[0], "contract": r["ident"],
                                     "kwargs": v["kwargs"]}),
                        "replay": {"reproduced": True, "detail": v["detail"]}, "bounded": b["bound"]},
                       open(os.path.join(ROOT, path), "w"), indent=1)
             viol_lines.append(f"VIOLATION property={prop} replay={path}")
-            lines.append(f"  bounded stand-in for {r['ident']} (verifier: {r['error'][:120]}): {v['detail'][:300]}")
+            lines.append(f"  bounded stand-in for {r['ident']} (verifier: {reason[:120]}): {v['detail'][:300]}")
     for ln in lines:
         print(ln)
     for ln in viol_lines:
@@ -362,8 +386,10 @@ def main(argv=None):
                 "canaries_refuted": sum(1 for r in results for cn in r["canaries"] if cn["refuted"] > 0),
                 "canaries": [dict(cn, contract=r["ident"]) for r in results for cn in r["canaries"]],
                 "undecided": [o["id"] for _, o in unknown],
-                "bounded_standins": [dict(contract=r["ident"], reason=r["error"][:200], **{k_: v for k_, v in r["bounded"].items() if k_ != "violations"},
-                                          violations=len(r["bounded"]["violations"])) for r in results if r.get("bounded")],
+                "bounded_standins": [dict(contract=r["ident"], reason=(r["error"] or r.get("bounded_reason", ""))[:300],
+                                          **{k_: v for k_, v in r["bounded"].items() if k_ != "violations"},
+                                          violations=len(r["bounded"]["violations"]),
+                                          known_failing=[x for x in known_bounded if x.startswith(r["ident"] + "/")]) for r in results if r.get("bounded")],
                 "not_decided_clauses": trusted.not_decided(prop),
                 "tree": tree,
             },
